@@ -287,9 +287,11 @@ def rule_G1(ctx, R):
     """handle_unwind is catch -> handler -> resume."""
     res = RuleResult("G1", "handle_unwind: try once under catch_unwind; handler only on the Err outcome; then resume_unwind")
     try:
-        f = ctx.F.fn("handle_unwind::handle_unwind")
+        if not ctx.A.handle_unwind:
+            raise KeyError("no function calls catch_unwind")
+        f = ctx.F.fn(ctx.A.handle_unwind)
     except KeyError as e:
-        res.undecided("handle_unwind::handle_unwind", "anchor", str(e))
+        res.undecided("<handle_unwind>", "anchor", str(e))
         res.need(1, "handle_unwind")
         return res
     paths, err, I = ctx.paths(f)
@@ -351,7 +353,7 @@ def rule_G2(ctx, R):
     sites = call_sites(ctx, lambda c: c["def"] == "std::panic::catch_unwind")
     ctrl = 0
     for f, t in sites:
-        if ctx.F.top_fn(f)["path"] == "handle_unwind::handle_unwind":
+        if ctx.F.top_fn(f)["path"] == ctx.A.handle_unwind and not ctx.A.notes:
             ctrl += 1
             res.ok("positive control: " + f["path"])
         else:
